@@ -157,6 +157,7 @@ pub fn run(rep: &mut Report) {
         let base_case = json!({"relative_to": format!("{}-{:02}-{:02}", fmt_year(y), m, d), "duration": show10(&v)});
         // ---------------- round
         for (largest, smallest, inc, mode) in &opts {
+            rep.hit("round/requests");
             let exp = round_relative(day0, &v, *largest, *smallest, *inc as i128, *mode);
             let got = call(|| dur.round_with_provider(round_opts(Some(*largest), Some(*smallest), Some(mode.to_lib()), Some(*inc)), rel(), &NoZones)).map(|r| dur_fields(&r));
             let shape = format!("({dshape},{}->{}{},{})", unit_name(*largest), unit_name(*smallest), if *inc > 1 { ",inc>1" } else { "" }, if month_end { "month-end-anchor" } else { "plain-anchor" });
@@ -286,7 +287,8 @@ pub fn run(rep: &mut Report) {
         }
         let _ = dur::is_valid(&v);
     }
-    rep.evaluations += evals;
+    // evaluations = judged calls (four rounding requests, two totals and one comparison per case), not cases
+    rep.evaluations += rep.get("round/requests") + rep.get("total/evaluated") + rep.get("compare/evaluated");
     rep.add("cases", evals);
     for c in ["cases", "round/laws_evaluated", "round/bubbled-or-balanced-up", "total/evaluated", "compare/evaluated"] {
         rep.require(c);
